@@ -99,6 +99,7 @@ func NewRouter(s *specification.Spec, ps []*PathItem, os []*Operation, opt Gener
 				if s.Scheme.Type == specification.SecuritySchemeTypeHTTP && s.Scheme.Scheme == "bearer" {
 					r.JWT = true
 					p.JWT = true
+					op.JWT = true
 				}
 				if s.Scheme.Type == specification.SecuritySchemeTypeApiKey && s.Scheme.In == "header" {
 					op.APIKeys = append(op.APIKeys, s.Scheme.Name)
@@ -156,6 +157,9 @@ type RouterPathItemOperation struct {
 	Method   specification.HTTPMethodTitle
 	PathSpec string
 	Handler  string
+
+	// JWT - the operation itself lists an http bearer scheme.
+	JWT bool
 
 	IsCORS      bool
 	CORSMethods []string
